@@ -4,6 +4,7 @@ import GrassProofs.Lemmas.Scope
 import GrassProofs.Lemmas.Eval
 import GrassProofs.Lemmas.EvalScope
 import GrassProofs.Lemmas.EvalSem
+import GrassProofs.Lemmas.EvalUnits
 /-
   C03 — SassScript evaluation follows the language scoping and control-flow rules.
 
@@ -1435,6 +1436,6 @@ theorem C03_asFound_message_quotes :
     messageText Dev.asFound false (.str "foo" true) = (Value.str "foo" true).toCss ∧
     messageText Dev.now true (.str "foo" true) = .ok "foo" ∧
     messageText Dev.now false (.str "foo" true) = .ok "foo" := by
-  refine ⟨rfl, rfl, ?_, ?_⟩ <;> simp [messageText, Dev.now, plainText]
+  refine ⟨rfl, rfl, ?_, ?_⟩ <;> simp [messageText, Dev.now, printable, plainText]
 
 end Grass.Eval
